@@ -51,6 +51,7 @@ struct Spec {
   double hookPipe = 0, hookPool = 0, futexDelayP = 0, futexSpur = 0;
   bool bg = false;
   bool unbounded = false;
+  bool tail = false;
   long throwLo[kMaxStages] = {0, 0, 0, 0, 0};
   long throwHi[kMaxStages] = {-1, -1, -1, -1, -1};
   uint64_t salt = 1;
@@ -117,7 +118,7 @@ struct Spec {
     j.arr("limit", lim).arr("dwellUs", dw).arr("filtT", ft);
     if (anyThrow()) j.arr("throwLo", tl).arr("throwHi", th).kv("pos", posClass);
     j.kv("yield", yieldInStage).kv("hookPipe", hookPipe).kv("hookPool", hookPool).kv("futexDelayP", futexDelayP).kv("futexSpur", futexSpur);
-    j.kv("bg", bg).kv("unbounded", unbounded).kv("salt", salt);
+    j.kv("bg", bg).kv("unbounded", unbounded).kv("tail", tail).kv("salt", salt);
     return j;
   }
 };
@@ -412,6 +413,24 @@ static Spec genFlow(vrt::Rng& r, bool c28) {
   s.futexDelayP = r.chance(0.25) ? 0.2 : 0;
   s.futexSpur = r.chance(0.2) ? 0.1 : 0;
   s.bg = r.chance(0.15);
+  if (!c28 && r.chance(0.35)) {
+    // "tail" scenario: very few items, so the last enqueue of a bounded stage often races with the
+    // completion that finds the queue empty (item left in the local queue with nobody to dispatch it
+    // until wait() picks it up) -- delays at both hand-off sites, short dwells, pool >= 2
+    s.n = r.range(1, 8);
+    if (s.pool < 2) s.pool = static_cast<int>(r.range(2, 6));
+    for (int k = 0; k < ns; ++k) {
+      static const long lim[] = {1, 1, 2, 3};
+      static const int dw[] = {0, 1, 3, 8};
+      if (k > 0) s.limit[k] = r.pick(lim);
+      s.dwell[k] = r.pick(dw);
+      if (s.filtT[k] > 32768) s.filtT[k] = 6554;
+    }
+    s.hookPipe = r.chance(0.7) ? 0.9 : 0.5;
+    s.hookPool = 0;
+    s.bg = false;
+    s.tail = true;
+  }
   return s;
 }
 
@@ -446,6 +465,7 @@ static void flowClasses(const Spec& s, std::vector<std::string>& cls, uint64_t h
   if (s.n == 0) cls.push_back("items:0");
   if (s.n > 1000) cls.push_back("items:large");
   if (s.bg) cls.push_back("bg-load");
+  if (s.tail) cls.push_back("tail-race");
   bool someF = false, allF = false;
   for (int k = 0; k < ns; ++k) {
     if (s.filterCapable(k) && s.filtT[k] > 0 && s.filtT[k] < 65536) someF = true;
@@ -778,6 +798,10 @@ static void runExcCase(long idx, Spec s, int thrower, std::vector<std::string> c
     if (leaked == 0) cls.push_back("no-leak");
   }
   obs1.kv("leaked", leaked);
+  // ASan builds: the runtime's LeakSanitizer pass at caseEnd costs ~1 s on a loaded machine. It is
+  // forced whenever the payload counter saw a leak (so the report carries this case's key) and
+  // otherwise runs for every 4th case (a leak of other memory is attributed within 4 cases).
+  vrt::leakCheckEvery((leaked != 0 || (idx & 3) == 0) ? 1 : (1l << 40));
   vrt::caseEnd(obs1, thrown ? s.json().str() : "", cls);
 }
 
